@@ -81,12 +81,14 @@ class Sides:
             self.pre_model.append(line)
             self.pre_impl.append(line)
         self.not_ids = {}
+        self.notn_by_id = {}
         for j, nt in enumerate(self.shipped):
             self.register(nt, j)
 
     def register(self, nt, j):
         """make notation nt known under id j to both sides (pretty-printing requests refer to ids)"""
         self.not_ids[id(nt)] = j
+        self.notn_by_id[j] = nt
         nt.nid = j
         if nt.chunks is not None:
             self.pre_model.append(f'NOT {j} ' + ' '.join(nt.toks()))
@@ -222,10 +224,117 @@ def _term(ans):
         raise BadAnswer(ans)
 
 
-def make_case(op, args):
+def _read_notation(r, nots):
+    """(arity, definition) of an inline notation or of `#id` (looked up in nots: id -> pygen.Notn)"""
+    if r.a[r.i].startswith('#'):
+        nt = nots[int(r.next()[1:])]
+        return nt.arity, nt.definition
+    ar = r.int()
+    d = r.term()
+    PC.read_chunks(r)
+    return ar, d
+
+
+def _seqmatch(eqs, drop):
+    E = G.ref_expand
+    m = {}
+    for p, i in eqs:
+        m = G.ref_match(E(p, drop), E(i, drop), m)
+        if m is None:
+            return None
+    return m
+
+
+def make_case(op, args, nots=None):
     """build the oracle for a request from its text (so that replay files need only op and args)"""
     E = G.ref_expand
     r = PC.Reader(args)
+    if op in ('ML', 'MLI'):
+        eqs = []
+        for _ in range(r.int()):
+            p = r.term()
+            eqs.append((p, r.term()))
+        nontriv = any(PC.has_kind(p, 'v') for p, _ in eqs) or not eqs
+        terms = tuple(t for e in eqs for t in e)
+        if op == 'MLI':
+            return Case(op, args, lambda drop: 'NONE' if _seqmatch(eqs, drop) is None else '1',
+                        lambda ans, drop: ans, 'match-list-rebuild', True, terms)
+
+        def spec(drop):
+            m = _seqmatch(eqs, drop)
+            return None if m is None else tuple(m.items())
+
+        def post(ans, drop):
+            if ans == 'NONE':
+                return None
+            try:
+                rr = PC.Reader(ans)
+                d = rr.delta()
+                if not rr.done():
+                    raise BadAnswer(ans)
+                return tuple((k, E(v, drop)) for k, v in d)
+            except (ValueError, IndexError):
+                raise BadAnswer(ans)
+        return Case(op, args, spec, post, 'match-list', True, terms)
+    if op == 'MSI':
+        p = r.term()
+        i = r.term()
+        seed = r.delta()
+        return Case(op, args,
+                    lambda drop: 'NONE' if G.ref_match(E(p, drop), E(i, drop), {k: E(v, drop) for k, v in seed}) is None else '1',
+                    lambda ans, drop: ans, 'match-rebuild', True, (p, i))
+    if op == 'RT':
+        ar, d = _read_notation(r, nots)
+        targs = r.tuple()
+
+        def spec(drop):
+            ed = E(d, drop)
+            if not G.subst_free(ed):
+                return ('skip',)
+            if len(targs) != ar:
+                return 'RAISE'
+            mvs = G.ref_metavars(ed)
+            return (True, tuple(E(a, drop) if j in mvs else None for j, a in enumerate(targs)))
+
+        def post(ans, drop):
+            ed = E(d, drop)
+            if not G.subst_free(ed):
+                return ('skip',)
+            if ans == 'RAISE':
+                return 'RAISE'
+            try:
+                rr = PC.Reader(ans)
+                b = rr.next()
+                res = rr.tuple()
+                if not rr.done() or b not in '01':
+                    raise BadAnswer(ans)
+            except (ValueError, IndexError):
+                raise BadAnswer(ans)
+            mvs = G.ref_metavars(ed)
+            return (b == '1', tuple(E(a, drop) if j in mvs else None for j, a in enumerate(res)))
+        return Case(op, args, spec, post, 'roundtrip', True, targs)
+    if op in ('NM', 'NA'):
+        ar, d = _read_notation(r, nots)
+        t = r.term()
+
+        def spec(drop):
+            m = G.ref_match(E(d, drop), E(t, drop), {})
+            if m is None:
+                return None
+            return tuple(m[j] if j in m else PC.mv(j) for j in range(ar))
+
+        def post(ans, drop):
+            if ans in ('NONE', 'RAISE'):
+                return None
+            try:
+                rr = PC.Reader(ans)
+                res = rr.tuple()
+                if not rr.done():
+                    raise BadAnswer(ans)
+                return tuple(E(a, drop) for a in res)
+            except (ValueError, IndexError):
+                raise BadAnswer(ans)
+        return Case(op, args, spec, post, 'notation-match', True, (t,))
     if op == 'EQ':
         a, b = r.term(), r.term()
         return Case(op, args, lambda drop: E(a, drop) == E(b, drop), _bool, 'eq', PC.has_kind(a, 'I') or PC.has_kind(b, 'I'), (a, b))
@@ -308,7 +417,7 @@ def make_case(op, args):
     raise ValueError(f'no oracle for {op}')
 
 
-def check_cases(R, sides, cases, cfg, cid, sigfun=None):
+def check_cases(R, sides, cases, cfg, cid, sigfun=None, kindfun=None):
     """tie (model in configuration cfg vs implementation, literal answer lines) and property oracle on the
     implementation.  Returns (mismatches, failures); failures are classified by the defect flag that explains
     them (pyside.explain logic, batched) and reported through R.violation."""
@@ -318,7 +427,7 @@ def check_cases(R, sides, cases, cfg, cid, sigfun=None):
     drop = not cfg['f_mv_keep_subst']
     mismatches, failing = [], []
     for c, m, i in zip(cases, model, impl):
-        R.case((c.op, c.args), c.nontrivial, f'{c.op}')
+        R.case((c.op, c.args), c.nontrivial, kindfun(c, i) if kindfun else f'{c.op}')
         if m != i:
             mismatches.append(dict(op=c.op, args=c.args, model=m, impl=i))
         try:
